@@ -174,6 +174,19 @@ def run(ctx):
                    f"`{ast.unparse(n_)[:60]}` replaces the caller's `{pn_}` whenever no checkpoint_path was passed: inside auto_checkpoint(f, every=1) an explicit "
                    f"sample_posterior(..., {pn_}=3) checkpoints at the context's cadence, not at the requested one", disc=f"override|{pn_}")
     ctx.count("context_defaults_filled_into_parameters", n_fill)
+    # a checkpoint *file* is a request for checkpoints: the default file callback is built whenever a file path is given, not only when a cadence is
+    from .smcloop import SMC as _SMC2
+    smp2 = repo.cls(_SMC2).methods["sample"]
+    builds = [n_ for n_ in walk_no_nested(smp2.node) if isinstance(n_, ast.If) and any(
+        isinstance(c_, ast.Call) and isinstance(c_.func, ast.Attribute) and c_.func.attr == "default_file_checkpoint_callback" for b_ in n_.body for c_ in ast.walk(b_))]
+    if len(builds) != 1:
+        ctx.unknown("C12.default", smp2.ident, loc_of(smp2), f"expected one place where the default file callback is built, found {len(builds)}", disc="path")
+    else:
+        names_ = {x.id for x in ast.walk(builds[0].test) if isinstance(x, ast.Name)}
+        ctx.decide("checkpoint_file_path" in names_, "C12.default", smp2.ident, loc_of(smp2, builds[0]),
+                   "the default file callback is built whenever a checkpoint file is given",
+                   f"the default file callback is built only under `{ast.unparse(builds[0].test)[:70]}`, which does not look at checkpoint_file_path: a run given a checkpoint file but no cadence "
+                   "(checkpoint_every=None) has no callback, so neither a cadence checkpoint nor the forced final one is written and the file holds configuration and flow only", disc="path")
     from .smcloop import forwarding_rule
     nf = forwarding_rule(ctx, "C12.route", ("checkpoint_callback", "checkpoint_every", "checkpoint_file_path"),
                          "with that sampler the checkpoint file / cadence / callback requested by the caller never reaches the SMC loop, so nothing (or only an in-memory copy) is checkpointed")
